@@ -44,6 +44,10 @@ CHECKS = {
             "TLC enumerates all whitespace strings up to length 7, all sequences of up to 5-6 entity fragments, all attribute values up to length 5 x original quote x mustQuote and CDATA texts; the harness runs ReplaceMultipleWhitespace / ReplaceEntities / the combined function / html+xml EscapeAttrVal / EscapeCDATAVal on private copies (also checking nothing outside the argument is written), feeds escaped attributes to the real html/xml lexers, and TLC validates every event against Normalise.tla: exact output for whitespace, never-longer / idempotent / decoded-text-preserving for entities, read-back and quoting rules for attributes.",
             "Entity decoding reference is Go's html.UnescapeString as the statement names HTML decoding. Two recorded findings (abutting references, hex overflow) in known_findings.jsonl.",
             "DESIGN.md §4 C17"),
+    "C18": ("TLA+ stack-machine spec Walk.tla; TLC checks the recursive traversal model WalkImpl.tla against it on every tree <= 5-6 nodes x every policy; TLC validates Enter/Exit traces of the real js.Walk against ground-truth trees obtained by reflection",
+            "For every program of a corpus that covers every AST node kind (snippets, the repository's own js test literals that parse, seeded combinations) the harness builds the tree by reflection over the AST independently of Walk, runs js.Walk with a recording visitor under three policies, and TLC validates the whole Enter/Exit sequence against Walk.tla: root first, a node only inside its open ancestor, never twice, nothing below a stopped node, Exit only for the innermost open node, and at the end every required node entered unless under a stopped node.",
+            "Programs are sampled, not exhaustive; node identity is by slot (address+type, or content for copies). Trusted: the reflection walker's notion of 'part of the tree' (exported fields except scope tables).",
+            "DESIGN.md §4 C18"),
 }
 NOT_APPLICABLE = {
 }
